@@ -31,7 +31,7 @@ DEFAULT_ALLOWED = ["openid", "profile", "email", "address", "phone", "offline_ac
 SCOPES = ["openid", "profile", "email", "address", "phone", "offline_access", "foo", "openid"]
 
 
-def make_server(oidc=True, jwt=False, user="diana", usage=None, keys=None, more_endpoints=None):
+def make_server(oidc=True, jwt=False, user="diana", usage=None, keys=None, more_endpoints=None, pkce=False):
     from idpyoidc.server.authz import AuthzHandling
     rules = copy.deepcopy(USAGE_A)
     if usage == "no_code_expiry":
@@ -39,6 +39,8 @@ def make_server(oidc=True, jwt=False, user="diana", usage=None, keys=None, more_
     if usage == "exchange":
         rules["access_token"]["supports_minting"] = ["access_token", "refresh_token"]
     extra = {"authz": {"class": AuthzHandling, "kwargs": {"grant_config": {"usage_rules": rules, "expires_in": 43200}}}}
+    if pkce:
+        extra["add_on"] = {"pkce": {"function": "idpyoidc.server.oauth2.add_on.pkce.add_support", "kwargs": {"essential": False}}}
     s = opbase.make_op(jwt_tokens=jwt, extra=extra, user=user, keys=keys, more_endpoints=more_endpoints)
     if not oidc:
         from idpyoidc.server.oauth2.token import Token as OToken
@@ -70,9 +72,10 @@ CLS = {AuthorizationCode: "code", AccessToken: "access", RefreshToken: "refresh"
 class Runner:
     """one long-lived provider; handles (ints) for grants and tokens in creation order, mirroring the model's counter"""
 
-    def __init__(self, oidc=True, jwt=False, usage=None, keys=None, more_endpoints=None):
+    def __init__(self, oidc=True, jwt=False, usage=None, keys=None, more_endpoints=None, pkce=False):
         self.oidc, self.jwt, self.usage, self.keys, self.more_endpoints = oidc, jwt, usage, keys, more_endpoints
-        self.s = make_server(oidc, jwt, usage=usage, keys=keys, more_endpoints=more_endpoints)
+        self.s = make_server(oidc, jwt, usage=usage, keys=keys, more_endpoints=more_endpoints, pkce=pkce)
+        self.auth_extra, self.token_extra = {}, {}     # further request parameters (PKCE) for the next authorize / tokenParse
         self.sm = self.s.context.session_manager
         self.h = {}          # real value / grant id -> handle
         self.val = {}        # handle -> token value
@@ -250,6 +253,7 @@ class Runner:
             args["redirect_uri"] = redirect
         if "offline_access" in scope:
             args["prompt"] = "consent"
+        args.update(self.auth_extra)
         req = AuthorizationRequest(**args)
         pr = ep.parse_request(req.to_dict())
         if "error" in pr:
@@ -274,6 +278,7 @@ class Runner:
         ep = self.s.get_endpoint("token")
         body, hi = self._cred(client, claim)
         req = dict(body, grant_type="authorization_code", code=self.tv(code))
+        req.update(self.token_extra)
         if redirect is not None:
             req["redirect_uri"] = redirect
         pr = ep.parse_request(req, http_info=hi)
